@@ -143,10 +143,21 @@ def run(ck):
               "module M\nstruct S { " + " ".join("f%d: int32" % i for i in range(3000)) + " }\n", "module M\nenum E { " + " ".join("A%d" % i for i in range(3000)) + " }\n", "module M\n" + "/* " * 1000, '"' * 999, "[[" * 500,
               "module M\ninterface I { " + "op(" * 200 + " }\n", "module M\ntypealias A0 = int32\n" + "\n".join("typealias A%d = A%d" % (i, i - 1) for i in range(1, 400)) + "\nstruct S { a: A399 }\n",
               "module M\ninterface I0 {}\n" + "\n".join("interface I%d : I%d {}" % (i, i - 1) for i in range(1, 300)) + "\n", "module M\n" + "\n".join("struct S%d { a: S%d }" % (i, i + 1) for i in range(300)) + "\nstruct S300 {}\n"]
-    o3 = core.run_impl("diags", ["diags - " + hx(t) for t in forms], chunk=25, timeout=120)
+    # every program of three aliases whose bodies are a name, a sequence, a dictionary value or a result over the aliases and int32
+    bodies = []
+    for tgt in ("A", "B", "C", "int32"):
+        bodies += [tgt, "Sequence<%s>" % tgt, "Dictionary<string, %s>" % tgt, "Result<%s, string>" % tgt]
+    for a, b, c in itertools.product(bodies, repeat=3):
+        forms.append("module M\ntypealias A = %s\ntypealias B = %s\ntypealias C = %s\nstruct S { a: A }\n" % (a, b, c))
+    # malformed and boundary integer literals in every literal position
+    for lit in ["0x", "0b", "0b_", "0x_", "0_", "1_", "00", "0xg", "0b2", "9" * 40, "0x" + "f" * 33, "1__2", "0X1", "0B1", "1e5", "0x-1", "-0", "- 1", "--1", "1-", "340282366920938463463374607431768211455",
+                "170141183460469231731687303715884105727", "170141183460469231731687303715884105728", "-170141183460469231731687303715884105728", "-170141183460469231731687303715884105729"]:
+        forms += ["module M\nenum E : int64 { A = %s, B }\n" % lit, "module M\nunchecked enum E { A = %s }\n" % lit, "module M\nstruct S { tag(%s) a: int32? }\n" % lit,
+                  "module M\ninterface I { op(tag(%s) a: int32?) -> tag(%s) string? }\n" % (lit, lit), "module M\nenum E { A(tag(%s) x: bool?) = %s }\n" % (lit, lit)]
+    o3 = core.run_impl("diags", ["diags - " + hx(t) for t in forms], chunk=200, timeout=120)
     ck.stream("forms", description="every type form (primitive, optional, sequence, dictionary, result, struct/enum/interface/custom/alias names, global, unknown, module name, nested, attributed, malformed) in every type position "
               "(field, base, second base, underlying type, alias target, dictionary key/value, parameter, return tuple, enumerator field, tagged, compact, streamed, element, link); containment/alias/inheritance cycles; "
-              "mixed-width and CRLF doc comments; deep nesting (300), long lists (3000), long chains (300-400), unterminated constructs")
+              "every program of three aliases over {name, sequence, dictionary, result} x {A, B, C, int32} (4096, exhaustive); malformed and boundary integer literals in every literal position; mixed-width and CRLF doc comments; deep nesting (300), long lists (3000), long chains (300-400), unterminated constructs")
     for t, oo in zip(forms, o3):
         ck.count("forms", t)
         if classify(oo) == "CRASH":
